@@ -290,6 +290,8 @@ def dispatch_model(ctx, repo, pid):
     ctx.analysed(gg)
     chosen = {}
     gen_args = {}
+    mikro_bad = {}
+    mikro_seen = 0
     for dims in (3, 4):
         for n in (1, 2, 3, 4, 5, 40):
             interp = Interp(repo, Hooks())
@@ -315,6 +317,22 @@ def dispatch_model(ctx, repo, pid):
                 a0 = sv.origin.args[0] if sv.origin.args else sv.origin.kw.get("my_array")
                 if a0 is not None and vkey(a0) != vkey(o.attrs["grid"]):
                     gen_args.setdefault(vstr(a0)[:160], []).append((dims, n))
+            # the tiny-grid estimate is sized by the declared N (the 4D grid array holds the 2N rows of the double cover)
+            if isinstance(sv, ObjV) and sv.cls is not None and sv.cls.name == "MikroVoronoi" and isinstance(sv.origin, Term) and \
+                    sv.origin.op == "ctor":
+                ctor = sv.cls.find_method("__init__")
+                names = [a.arg for a in ctor.node.args.args[1:]] if ctor is not None else []
+                got = {}
+                for nm_, v_ in list(zip(names, sv.origin.args)) + list((sv.origin.kw or {}).items()):
+                    got[nm_] = v_
+                for nm_, want in (("N_points", n), ("dimensions", dims)):
+                    v_ = got.get(nm_)
+                    if isinstance(v_, Num) and v_.p.is_const():
+                        if v_.p != Poly.const(want):
+                            mikro_bad.setdefault((nm_, "wrong"), []).append(f"dims={dims}, N={n}: {nm_}={vstr(v_)}")
+                    else:
+                        mikro_bad.setdefault((nm_, "unknown"), []).append(f"dims={dims}, N={n}: {nm_}={vstr(v_)[:60]}")
+                mikro_seen += 1
     exp = {}
     for dims in (3, 4):
         for n in (1, 2, 3, 4, 5, 40):
@@ -323,6 +341,20 @@ def dispatch_model(ctx, repo, pid):
     ctx.check(not bad, "DISPATCH", f"{pid}.dispatch", "cell model per grid: exact (3D) / antipode-folded (4D) Voronoi model for N>=4, "
               "equal-share estimate for N<4", gg.where, "if self.dimensions == 3 and self.N >= 4: ...",
               witness="; ".join(f"dims={k[0]}, N={k[1]}: {v[0]} (expected {v[1]})" for k, v in bad.items()))
+    if mikro_seen:
+        ctx.instance("DISPATCH")
+        wrong = [w_ for (nm_, k_), ws in mikro_bad.items() if k_ == "wrong" for w_ in ws]
+        unk = [w_ for (nm_, k_), ws in mikro_bad.items() if k_ == "unknown" for w_ in ws]
+        if wrong:
+            ctx.violate("DISPATCH", f"{pid}.dispatch.tiny_size", "the equal-share estimate of a tiny grid is not sized by the declared number of "
+                        "points N and the grid dimension (a 4D grid array holds the 2N rows of the double cover: sizing by its length "
+                        "returns 2N shares of pi^2/(2N))", gg.where, "MikroVoronoi(dimensions=self.dimensions, N_points=self.get_N())",
+                        witness="; ".join(wrong[:4]))
+        elif unk:
+            ctx.inconclusive("DISPATCH", f"{pid}.dispatch.tiny_size", "size handed to the tiny-grid estimate not derived", gg.where,
+                             witness="; ".join(unk[:4]))
+        else:
+            ctx.ok("DISPATCH", f"{pid}.dispatch.tiny_size", "the tiny-grid estimate is built for the declared N and the grid dimension", gg.where)
     ctx.instance("ORD")
     if not gen_args:
         ctx.ok("ORD", f"{pid}.dispatch.generators", "the cell model is built on the grid array itself: cell k belongs to grid row k", gg.where)
